@@ -2,16 +2,24 @@
     The decoder model [decode T abort root input] has no state parameter; the one piece of process-global
     state of the implementation - the memo behind TPMS_PARAMS.encrypted() - is modelled in Model/Cache.v.
     That there is no other cross-call state is validated by the correspondence run (histories and
-    step-wise interleavings compared with Python ==), not proved.
+    step-wise interleavings compared with Python ==) and by a syntactic audit of the sources that the translator
+    repeats on every run (gen/Audit.v); it is not proved of the Python code.
     Statement file: theorem statements, [exact]/computation, Print Assumptions only. *)
 From Coq Require Import ZArith List String Bool.
-From TV Require Import Layout.Types gen.Tables Model.Cache Proofs.CacheProofs.
+From TV Require Import Layout.Types gen.Tables gen.Audit Model.Cache Proofs.CacheProofs.
 Import ListNotations.
 
 (** the memo of the tree under test is unbounded (read from the source by the translator) *)
 Theorem C12_memo_is_unbounded : cache_size Tables.T = None.
 Proof. vm_compute. reflexivity. Qed.
 Print Assumptions C12_memo_is_unbounded.
+
+(** the translator's audit of every module under src/tpmstream finds no further carrier of state that survives a
+    call: no default argument evaluated once (anything but constants and plain names), no global / nonlocal
+    statement, no memo decorator or functools memo helper besides the one above and two per-instance properties *)
+Theorem C12_no_further_shared_state_in_the_sources : Audit.shared_state = [].
+Proof. vm_compute. reflexivity. Qed.
+Print Assumptions C12_no_further_shared_state_in_the_sources.
 
 (** with an unbounded memo: in every history - any number of decodes, interleaved step by step in any way -
     any two requests for the encrypted layout of the same parameter class get the same synthesized type *)
